@@ -300,7 +300,7 @@ func planC10(tier string, root *simcore.RNG) *plan {
 	}
 	total, missing := auditConstructors()
 	pl.extra = map[string]any{"catalogue_entries": len(names), "exported_constructors_in_sdf_and_obj": total, "constructors_not_in_catalogue": missing}
-	pl.rule = "for every entry of the shape catalogue (every exported sdf/obj constructor returning SDF2/SDF3, incl. Cache2D, NewVoxelSDF3, Mesh2D/3D, Text2D, ImportTriMesh/ImportSTL, rotate/array wrappers, screws, all obj parts): (a) 2..4 simulated caller goroutines evaluate the shared shape over overlapping seeded point lists (repeats included), parked before every call and, for harness-built composites, at yielding wrappers on the leaves, i.e. inside the combinator's or cache's Evaluate; (b) for a rotating quarter of the entries (all in the thorough tier) the shape is rendered with NewMarchingCubesUniform under a seeded schedule and a freshly built reference instance is rendered afterwards. Built with -race; parking is invisible to the race detector (RaceDisable window), so program races are reported although the simulator runs the goroutines one at a time. Oracle: values bit-identical to sequential evaluation of a fresh instance / identical triangle sequence; no race report with an sdfx frame; no panic or runtime fault. Non-trivial = the scheduler had >= 2 choices at >= 1 step; distinct = trace hash."
+	pl.rule = "for every entry of the shape catalogue (every exported sdf/obj constructor returning SDF2/SDF3, incl. Cache2D, NewVoxelSDF3, Mesh2D/3D, Text2D, ImportTriMesh/ImportSTL, rotate/array wrappers, screws, all obj parts): (a) 2..4 simulated caller goroutines evaluate the shared shape over overlapping seeded point lists (repeats included), parked before every call and, for harness-built composites, at yielding wrappers on the leaves, i.e. inside the combinator's or cache's Evaluate; (b) for a rotating quarter of the entries (all in the thorough tier) the shape is rendered with NewMarchingCubesUniform under a seeded schedule and a freshly built reference instance is rendered afterwards; (c) many-points episodes (128..191 points per caller, automatic hooks at every synchronisation operation inside the library); (d) for wrappers with state (Cache2D, voxel tables) long sequential query histories (up to 600000 evaluations) before the callers start, and threshold histories that stop 8..31 evaluations short of a round number (2^8..2^18, 10^3..10^5; thorough to 2^20, 10^6) so that a size or read-count threshold is crossed by the concurrent callers, whose points are mostly new, under uniform/pct/burst/site-stall schedules. Built with -race; parking is invisible to the race detector (RaceDisable window), so program races are reported although the simulator runs the goroutines one at a time. Oracle: values bit-identical to sequential evaluation of a fresh instance / identical triangle sequence; no race report with an sdfx frame; no panic or runtime fault. Non-trivial = the scheduler had >= 2 choices at >= 1 step; distinct = trace hash."
 	pl.assume = []string{
 		"interleavings inside un-wrappable leaves (obj parts, primitives) are not explored at sub-call granularity; there the verdict rests on the happens-before race detector, whose shadow memory keeps only the last few accesses per word (misses possible, false reports not)",
 		"a race report counts only if at least one frame is in github.com/deadsy/sdfx; a report entirely inside the harness exits 2",
